@@ -105,6 +105,7 @@ def _mk_hook(name, nargs):
         if kind != "probe":
             STATE.dirty.update(r for r in rs if r is not None)
         op = (kind, name) + tuple(canon(r) for r in rs)
+        w.real = tuple(r for r in rs if r is not None)
         if visible:
             w.point(op)
         else:
@@ -136,6 +137,7 @@ def _os_open(path, flags, mode=0o777, *, dir_fd=None):
     if kind != "open-r":
         STATE.dirty.add(r)
     op = (kind, "os.open", canon(r))
+    w.real = (r,)
     if is_private(r):
         w.private(op)
     else:
@@ -156,6 +158,7 @@ def _os_sendfile(out_fd, in_fd, offset, count, *a, **k):
         if f is not None and f._hs_rel is not None:
             STATE.dirty.add(f._hs_real())
             op = ("write", "sendfile", canon(f._hs_rel))
+            w.real = (f._hs_real(),)
             if is_private(f._hs_rel):
                 w.private(op)
             else:
@@ -188,6 +191,7 @@ class HFileIO(io.FileIO):
         if kind == "write":
             STATE.dirty.add(self._hs_real())
         op = (kind, name, canon(self._hs_rel))
+        w.real = (self._hs_real(),)
         if is_private(self._hs_rel):
             w.private(op)
         else:
@@ -254,6 +258,7 @@ def _open(file, mode="r", buffering=-1, encoding=None, errors=None, newline=None
         STATE.dirty.add(r)
     op = (kind, "open:" + mode.replace("b", "").replace("t", ""), canon(r))
     if opener is None:
+        w.real = (r,)
         if is_private(r):
             w.private(op)
         else:
@@ -320,6 +325,7 @@ def _flock(fd, operation):
     f = next((x for x in STATE.files if not x.closed and x._hs_fd == fd), None)
     rel = canon(f._hs_rel) if f is not None else "fd"
     if operation & fcntl.LOCK_UN:
+        w.real = ()
         w.point(("lock", "flock-un", rel))
         STATE.flocks.pop(fd, None)
         return REAL["flock"](fd, operation)
@@ -332,6 +338,7 @@ def _flock(fd, operation):
         return not any(i == ino and h != fd for h, (i, _) in STATE.flocks.items())
 
     op = ("lock", "flock", rel)
+    w.real = (f._hs_real(),) if f is not None else ()
     w.point(op, pred=free)
     try:
         REAL["flock"](fd, operation | fcntl.LOCK_NB)
